@@ -39,6 +39,8 @@ import (
 
 	"github.com/RoaringBitmap/roaring"
 	"github.com/blugelabs/bluge"
+	"github.com/blugelabs/bluge/analysis/analyzer"
+	"github.com/blugelabs/bluge/analysis/lang/en"
 	"github.com/blugelabs/bluge/index"
 	"github.com/blugelabs/bluge/index/mergeplan"
 	"github.com/blugelabs/bluge/search"
@@ -97,7 +99,7 @@ func (s shape) line() string {
 func parseShape(line string) (shape, error) {
 	var s shape
 	ws := strings.Fields(line)
-	if len(ws) < 2 || (ws[0] != "run" && ws[0] != "probe-recycle" && ws[0] != "probe-persist-close" && ws[0] != "probe-pause-close" && ws[0] != "probe-shared-requests") {
+	if len(ws) < 2 || (ws[0] != "run" && ws[0] != "probe-recycle" && ws[0] != "probe-persist-close" && ws[0] != "probe-pause-close" && ws[0] != "probe-shared-requests" && ws[0] != "probe-cold-start") {
 		return s, fmt.Errorf("not a run line")
 	}
 	s.Kind = ws[0]
@@ -233,6 +235,16 @@ func (h) Gen(r *hlib.Rand, tier string, scale int, emit func(string)) {
 	}
 	for k := 0; k < nRace; k++ {
 		emit(mk("race", k).line())
+	}
+	// cold start: the FIRST use of every lazily usable feature of the search path is concurrent. The child
+	// process is fresh (nothing warmed up); after one sequential batch, goroutines released by a barrier each
+	// issue a different kind of query as their first search.
+	for k := 0; k < 1+nRace/40; k++ {
+		for _, mode := range []string{"race", "plain"} {
+			s := mk(mode, 0)
+			s.Kind, s.Dir, s.Ver, s.Stats, s.P, s.Across, s.Unsafe = "probe-cold-start", "mem", 1, 0, 8, false, false
+			emit(s.line())
+		}
 	}
 	// parallel searches whose requests share objects by construction: the package-level standard
 	// aggregations, one SortOrder value, aggregation definitions, query objects. Oracle: every concurrent
@@ -660,6 +672,8 @@ func childMain(line, rdir string) {
 		res = probePauseClose(sh, rdir)
 	} else if sh.Kind == "probe-shared-requests" {
 		res = probeSharedRequests(sh, rdir)
+	} else if sh.Kind == "probe-cold-start" {
+		res = probeColdStart(sh, rdir)
 	} else {
 		res = scenario(sh, rdir)
 	}
@@ -1311,6 +1325,132 @@ func probePauseClose(sh shape, rdir string) result {
 		return result{fmt.Sprintf("lost writer=0 acked_docs=10 found=%d", n), stats}
 	}
 	return result{"ok closed reopened acked_present", stats}
+}
+
+// probeColdStart: see Gen. Every goroutine's first search is a different query kind; each result must be
+// error-free and equal to what the same query returns afterwards, when everything has been used before.
+func probeColdStart(sh shape, rdir string) result {
+	stats := map[string]int{}
+	w, err := bluge.OpenWriter(bluge.InMemoryOnlyConfig())
+	if err != nil {
+		return result{"open-error", stats}
+	}
+	defer w.Close()
+	r := hlib.NewRand(sh.Seed)
+	b := bluge.NewBatch()
+	t0 := time.Date(2020, 1, 1, 0, 0, 0, 0, time.UTC)
+	for i := 0; i < 400; i++ {
+		id := fmt.Sprintf("d%04d", i)
+		b.Insert(bluge.NewDocument(id).
+			AddField(bluge.NewTextField("body", "common words here "+vocab[r.Intn(len(vocab))]+" "+vocab[i%len(vocab)]).SearchTermPositions()).
+			AddField(bluge.NewKeywordField("tag", vocab[i%5])).
+			AddField(bluge.NewNumericField("n", float64(i%17))).
+			AddField(bluge.NewDateTimeField("when", t0.Add(time.Duration(i)*time.Hour))).
+			AddField(bluge.NewGeoPointField("loc", float64(i%40)-20, float64(i%30)-15)))
+	}
+	if err := w.Batch(b); err != nil {
+		return result{"batch-error", stats}
+	}
+	rd, err := w.Reader()
+	if err != nil {
+		return result{"reader-error", stats}
+	}
+	defer rd.Close()
+	type kind struct {
+		name string
+		mk   func() bluge.Query
+	}
+	kinds := []kind{
+		{"fuzzy1", func() bluge.Query { return bluge.NewFuzzyQuery("alpho").SetField("body").SetFuzziness(1) }},
+		{"fuzzy2", func() bluge.Query { return bluge.NewFuzzyQuery("gamnna").SetField("body").SetFuzziness(2) }},
+		{"match-fuzzy1", func() bluge.Query { return bluge.NewMatchQuery("betta").SetField("body").SetFuzziness(1) }},
+		{"regexp", func() bluge.Query { return bluge.NewRegexpQuery("al.*a").SetField("body") }},
+		{"wildcard", func() bluge.Query { return bluge.NewWildcardQuery("de?t*").SetField("body") }},
+		{"prefix", func() bluge.Query { return bluge.NewPrefixQuery("ga").SetField("body") }},
+		{"geo-distance", func() bluge.Query { return bluge.NewGeoDistanceQuery(0, 0, "1500km").SetField("loc") }},
+		{"geo-box", func() bluge.Query { return bluge.NewGeoBoundingBoxQuery(-10, 10, 10, -10).SetField("loc") }},
+		{"numeric-range", func() bluge.Query { return bluge.NewNumericRangeQuery(3, 9).SetField("n") }},
+		{"date-range", func() bluge.Query {
+			return bluge.NewDateRangeQuery(t0.Add(24*time.Hour), t0.Add(96*time.Hour)).SetField("when")
+		}},
+		{"term-range", func() bluge.Query { return bluge.NewTermRangeQuery("b", "e").SetField("tag") }},
+		{"phrase", func() bluge.Query { return bluge.NewMatchPhraseQuery("common words").SetField("body") }},
+		{"match-standard", func() bluge.Query { return bluge.NewMatchQuery("Common HERE").SetField("body") }},
+		{"match-simple", func() bluge.Query {
+			return bluge.NewMatchQuery("Common").SetField("body").SetAnalyzer(analyzer.NewSimpleAnalyzer())
+		}},
+		{"match-web", func() bluge.Query {
+			return bluge.NewMatchQuery("words").SetField("body").SetAnalyzer(analyzer.NewWebAnalyzer())
+		}},
+		{"match-en", func() bluge.Query { return bluge.NewMatchQuery("common").SetField("body").SetAnalyzer(en.NewAnalyzer()) }},
+		{"match-keyword", func() bluge.Query {
+			return bluge.NewMatchQuery("alpha").SetField("tag").SetAnalyzer(analyzer.NewKeywordAnalyzer())
+		}},
+		{"boolean", func() bluge.Query {
+			return bluge.NewBooleanQuery().AddMust(bluge.NewTermQuery("common").SetField("body")).AddMustNot(bluge.NewTermQuery("alpha").SetField("body"))
+		}},
+	}
+	run := func(q bluge.Query) string {
+		it, err := rd.Search(context.Background(), bluge.NewTopNSearch(5, q).WithStandardAggregations())
+		if err != nil {
+			return "err:" + strings.ReplaceAll(err.Error(), " ", "_")
+		}
+		var sb strings.Builder
+		for {
+			m, err := it.Next()
+			if err != nil {
+				return "err:" + strings.ReplaceAll(err.Error(), " ", "_")
+			}
+			if m == nil {
+				break
+			}
+			fmt.Fprintf(&sb, "%d:%016x,", m.Number, math.Float64bits(m.Score))
+		}
+		fmt.Fprintf(&sb, " count=%d", it.Aggregations().Count())
+		return sb.String()
+	}
+	start := make(chan struct{})
+	first := make([]string, len(kinds))
+	var wg sync.WaitGroup
+	var panics uint64
+	for i := range kinds {
+		i := i
+		wg.Add(1)
+		go func() {
+			defer wg.Done()
+			defer func() {
+				if e := recover(); e != nil {
+					atomic.AddUint64(&panics, 1)
+					first[i] = fmt.Sprintf("panic:%v", e)
+				}
+			}()
+			<-start
+			first[i] = run(kinds[i].mk())
+			for k := 0; k < 2; k++ {
+				_ = run(kinds[(i+k+1)%len(kinds)].mk())
+			}
+		}()
+	}
+	close(start)
+	wg.Wait()
+	stats["api_goroutines"] = len(kinds)
+	stats["cold_start_first_uses"] = len(kinds)
+	empty := 0
+	for i, k := range kinds {
+		warm := run(k.mk())
+		if first[i] != warm || strings.HasPrefix(warm, "err:") {
+			return result{fmt.Sprintf("concurrent-differs-from-solo cold-start kind=%s first=[%s] warm=[%s]", k.name, first[i], warm), stats}
+		}
+		if strings.HasSuffix(warm, " count=0") {
+			empty++
+			stats["cold_start_empty:"+k.name] = 1
+		}
+	}
+	stats["cold_start_empty_results"] = empty
+	if empty > 0 {
+		return result{fmt.Sprintf("probe-inadequate %d query kinds matched nothing", empty), stats}
+	}
+	return result{"ok closed mem-noreopen", stats}
 }
 
 // findingListed: does /verif/known_findings.json (next to the bin directory of this executable) have an
